@@ -201,6 +201,7 @@ def build(reg, src):
     reg.extra_checks.append(ws_kinds)
     reg.bounded.append(dict(check='ws-message-kinds', tool='native execution of klong[\'.ws.m\'](conn, msg)', bound='13 JSON kinds of message', result='see rows'))
     reg.replays.append((r'shutdown_web_server|WebServerHandle', rp.replay_webc))
+    reg.replays.append((r'NetworkClient\._listen|decode_message', rp.replay_listen_kinds))
     reg.replays.append((r'.', rp.replay_web))
 
 
